@@ -169,26 +169,22 @@ def stepScanner (s : S) (toks : List String) (impl : String) : S × String × St
     fresh (Scanner.new input t) (unhex h) t
   | ["rst", h, tail, frag] =>
     let (input, t) := feed h tail frag
-    fresh (s.sc.reset input t) (unhex h) t
-  | ["next"] =>
-    let (sc, o) := s.sc.next
+    fresh (s.sc.step (.reset input t)).1 (unhex h) t
+  | ["next"] | ["split"] | ["each", _] | ["rest"] =>
+    let op : Op := match toks with
+      | ["split"] => .split
+      | ["each", k] => .each (k.toNat?.getD 0)
+      | ["rest"] => .rest
+      | _ => .next
+    let (sc, o) := s.sc.step op
     let (s', v) := specStep s toks impl
     let m := match o with
-      | .ret b => obs s!"next={fmtBool b}" sc
-      | .panic => "panic:index"
+      | .next (.ret b) => obs s!"next={fmtBool b}" sc
+      | .next .panic => "panic:index"
+      | .toks ts p => if p then "panic:index" else obs s!"toks={fmtFields ts}" sc
+      | .rest r t => obs s!"rest={hexBytes r} resterr={if t == .eof then "nil" else "E"}" sc
+      | .unit => obs "-" sc
     ({ s' with sc := sc }, m, v)
-  | ["split"] =>
-    let (sc, ts, p) := s.sc.split
-    let (s', v) := specStep s toks impl
-    ({ s' with sc := sc }, if p then "panic:index" else obs s!"toks={fmtFields ts}" sc, v)
-  | ["each", k] =>
-    let (sc, ts, p) := s.sc.each (k.toNat?.getD 0)
-    let (s', v) := specStep s toks impl
-    ({ s' with sc := sc }, if p then "panic:index" else obs s!"toks={fmtFields ts}" sc, v)
-  | ["rest"] =>
-    let (sc, r, t) := s.sc.rest
-    let (s', v) := specStep s toks impl
-    ({ s' with sc := sc }, obs s!"rest={hexBytes r} resterr={if t == .eof then "nil" else "E"}" sc, v)
   | _ => (s, "bad-op", "bad bad-op")
 
 def scanner : Stream := { name := "C16.scanner", σ := S, init := {}, step := stepScanner }
